@@ -66,13 +66,23 @@ def tags(case, mobs):
     return t
 
 
+class SkipResult(Exception):
+    """carries the (empty) result of a case that was dropped"""
+    def __init__(self, res):
+        Exception.__init__(self, 'case dropped')
+        self.res = res
+
+
 def base_eval(item, pid):
     """run the session; common result skeleton"""
     case = item['case']
     res = {'corr': [], 'pred': [], 'hyp': [], 'nontrivial': False, 'key': repr((case['shape'], case['k'], case['minv'],
            case['mind'], case['minn'], case.get('crits'), case.get('periodic'), case.get('adj'), case.get('dtype'))),
            'tags': [], 'known': []}
-    d, a, order, hooked, steps = session.run_session(case, item.get('ops', ()))
+    try:
+        d, a, order, hooked, steps = session.run_session(case, item.get('ops', ()))
+    except impl.SkipCase as e:
+        raise SkipResult(dict(res, tags=['skipped: %s' % e]))
     st0 = steps[0]
     res['hooked'] = hooked
     res['hyp'] = hyp_failures(st0.mobs)
@@ -214,6 +224,13 @@ def gen_item_C02(rng, idx, tier, pid):
     if item['case']['kind'] in ('bigint', 'decimal'):
         return item            # prune operations carry thresholds derived from the values
     r = idx % 4
+    if r == 0 and rng.random() < 0.5:
+        # navigation after the dendrogram was used for something else (sub-tree plots, Newick strings of single structures)
+        item['ops'] = [rng.choice([('plotsub', [rng.randrange(1000) for _ in range(rng.randint(1, 2))], rng.random() < 0.5),
+                                   ('newickattr', rng.choice(['trunk', 'all']))])]
+        if rng.random() < 0.4:
+            item['ops'].append(ph.gen_prune_op(rng, item['case']))
+            item['ops'].append(item['ops'][0])
     if r == 1:
         if rng.random() < 0.7:
             item['case']['mind'] = 0
@@ -309,8 +326,14 @@ def eval_C06(item):
             continue
         lab = 'step %d %s: ' % (i, st.op[0])
         accessor_diff(st.iobs, st.mobs, res, lab)
-        dd = d if st.op[0] != 'reload' else d
-        res['pred'] += [lab + f for f in preds.pred_C06(ctx, steps_d(steps, i, d), st.iobs)]
+        # the predicate looks at the live object: only where no later prune has changed it in place
+        later = []
+        for j in range(i + 1, len(steps)):
+            if steps[j].op[0] == 'reload':
+                break
+            later.append(steps[j].op[0])
+        if 'prune' not in later:
+            res['pred'] += [lab + f for f in preds.pred_C06(ctx, steps_d(steps, i, d), st.iobs)]
     return res
 
 
@@ -325,6 +348,13 @@ def steps_d(steps, i, d_final):
 
 def gen_item_C06(rng, idx, tier, pid):
     item = gen_item(rng, idx, tier, pid)
+    if idx % 3 == 0 and rng.random() < 0.5 and item['case']['kind'] not in ('bigint', 'decimal'):
+        # accessors of a pruned dendrogram, after accessors were used (and cached) before the prune
+        import props_history as ph
+        op = ph.gen_prune_op(rng, item['case'], allow_crits=False)
+        item['ops'] = [('warm', sorted(set(rng.choice(['npix', 'peak', 'level', 'desc']) for _ in range(2)))), op]
+        if rng.random() < 0.3:
+            item['ops'].append(('reload', rng.choice(['hdf5', 'fits'])))
     if idx % 3 == 1:
         item['ops'] = [('reload', rng.choice(['hdf5', 'fits']))]
     elif idx % 3 == 2 and len(item['case']['shape']) in (2, 3) and item['case']['kind'] not in ('bigint', 'decimal'):
